@@ -27,6 +27,13 @@ Proof.
   rewrite skipn_nil. constructor; auto.
 Qed.
 
+(* skip counts of any size: every count at or beyond the number of items left behaves alike - replacing each count above a
+   bound B >= the number of items by B changes nothing (the correspondence driver uses B = node length + 8 to turn the
+   implementation's 64-bit skip counts - 2^32 and beyond - into the model's unary numbers) *)
+Theorem C18_skip_clamp : forall (A : Type) (B : nat) calls (l : list A), (length l <= B)%nat ->
+  spec_run l (map (clamp_call B) calls) = spec_run l calls.
+Proof. exact @spec_run_clamp. Qed.
+
 (* non-vacuity: K=4 over ACGTACG: nth(5) is past the 4 k-mers -> None, then None again *)
 Example C18_nonvacuous :
   spec_run (kmers 4 [0; 1; 2; 3; 0; 1; 2]) [CNext; CNth 1; CNth 5; CNext]
@@ -34,3 +41,4 @@ Example C18_nonvacuous :
 Proof. vm_compute. reflexivity. Qed.
 
 Print Assumptions C18_iter_refines.
+Print Assumptions C18_skip_clamp.
